@@ -11,6 +11,16 @@ use std::panic::{catch_unwind, AssertUnwindSafe};
 trait Rat: Sized + Clone {
     fn mk(n: &str, d: &str) -> Self;
     fn show(&self) -> String;
+    /// is_zero is_one is_int (`-` where the type has no such method)
+    fn preds(&self) -> String;
+    /// TryFrom<f32> / TryFrom<f64> from the bit pattern
+    fn fromf(bits: &str, single: bool) -> String;
+}
+fn f32_of(s: &str) -> f32 {
+    f32::from_bits(u32::from_str_radix(s, 16).expect("u32"))
+}
+fn f64_of(s: &str) -> f64 {
+    f64::from_bits(u64::from_str_radix(s, 16).expect("u64"))
 }
 impl Rat for RBig {
     fn mk(n: &str, d: &str) -> Self {
@@ -19,6 +29,16 @@ impl Rat for RBig {
     fn show(&self) -> String {
         hq(self)
     }
+    fn preds(&self) -> String {
+        format!("{} {} {}", self.is_zero() as u8, self.is_one() as u8, self.is_int() as u8)
+    }
+    fn fromf(bits: &str, single: bool) -> String {
+        let r = if single { RBig::try_from(f32_of(bits)) } else { RBig::try_from(f64_of(bits)) };
+        match r {
+            Ok(v) => format!("ok {}", hq(&v)),
+            Err(e) => format!("err {:?}", e),
+        }
+    }
 }
 impl Rat for Relaxed {
     fn mk(n: &str, d: &str) -> Self {
@@ -26,6 +46,16 @@ impl Rat for Relaxed {
     }
     fn show(&self) -> String {
         hqr(self)
+    }
+    fn preds(&self) -> String {
+        format!("{} {} -", self.is_zero() as u8, self.is_one() as u8)
+    }
+    fn fromf(bits: &str, single: bool) -> String {
+        let r = if single { Relaxed::try_from(f32_of(bits)) } else { Relaxed::try_from(f64_of(bits)) };
+        match r {
+            Ok(v) => format!("ok {}", hqr(&v)),
+            Err(e) => format!("err {:?}", e),
+        }
     }
 }
 
@@ -185,6 +215,9 @@ macro_rules! ops_for {
             "from_parts_const" => {
                 format!("ok {}", <$T>::from_parts_const(sign_of(a[0]), u128_of(a[1]), u128_of(a[2])).show())
             }
+            "preds" => format!("ok {}", <$T>::mk(a[0], a[1]).preds()),
+            "fromf32" => <$T>::fromf(a[0], true),
+            "fromf64" => <$T>::fromf(a[0], false),
             "split" => {
                 let (t, f) = <$T>::mk(a[0], a[1]).split_at_point();
                 format!("ok {} {}", hi(&t), f.show())
